@@ -22,6 +22,17 @@ import (
 )
 
 func Merge(lists ...[]types.Entry) []types.Entry {
+	return merge(false, lists...)
+}
+
+// MergeWithTombstones merges like Merge but keeps tombstone entries.
+// Entries are versioned (key@ts), a tombstone is the version that hides all older versions of the key:
+// dropping it while older versions still exist (in the merged lists or in other sstables) would resurrect them.
+func MergeWithTombstones(lists ...[]types.Entry) []types.Entry {
+	return merge(true, lists...)
+}
+
+func merge(keepTombstones bool, lists ...[]types.Entry) []types.Entry {
 	h := &Heap{}
 	heap.Init(h)
 
@@ -55,7 +66,7 @@ func Merge(lists ...[]types.Entry) []types.Entry {
 	var merged []types.Entry
 
 	for _, entry := range latest {
-		if entry.Tombstone {
+		if entry.Tombstone && !keepTombstones {
 			continue
 		}
 		merged = append(merged, entry)
